@@ -143,6 +143,15 @@ class Harness:
             elif op == "evaluate":
                 prog = self.file["fns"][a["i"] - 1]
                 C.evaluate("f%d()" % a["i"], report=r, threaded=self.threaded)
+            elif op in ("run_in", "call_in"):
+                # the convenience parameter: a list, or (for a lone empty string) the documented str form
+                given = "" if list(a["xs"]) == [""] else list(a["xs"])
+                if op == "run_in":
+                    prog = self.file["top"]
+                    C.run(report=r, threaded=self.threaded, inputs=given)
+                else:
+                    prog = self.file["fns"][a["i"] - 1]
+                    C.call("f%d" % a["i"], report=r, threaded=self.threaded, inputs=given)
             elif op == "clear_output":
                 C.clear_output(report=r)
             elif op == "set_input":
@@ -176,7 +185,7 @@ class Harness:
                 mode = prog["mode"] if prog and class_matches(prog["mode"], cls) else "other:" + cls
                 self.fbs.append({"exec": len(sb._context), "mode": mode})
                 if prog and prog["mode"] in STUDENT_LINE:
-                    want = self.where["top" if a["op"] == "run" else a["i"]]
+                    want = self.where["top" if a["op"] in ("run", "run_in") else a["i"]]
                     got = f.location.line if f.location is not None else None
                     lineinfo.append({"want": want, "got": got})
         ex = sb.exception
@@ -247,8 +256,8 @@ def replay_one(rec):
             proj = h.do(a)
             exp = st["s"]
             mode = "-"
-            if a["op"] in ("run", "call", "evaluate"):
-                mode = (h.file["top"] if a["op"] == "run" else h.file["fns"][a["i"] - 1])["mode"]
+            if a["op"] in ("run", "call", "evaluate", "run_in", "call_in"):
+                mode = (h.file["top"] if a["op"] in ("run", "run_in") else h.file["fns"][a["i"] - 1])["mode"]
             if mode == "recursion":
                 # CPython itself drops a Python-level trace function that overflows the stack: not observable
                 proj["pTrace"] = exp["pTrace"]
